@@ -53,6 +53,7 @@ def run(ctx: Context) -> None:
     )
     ctx.rule("C03a", "with shots given, every branch frequency is a Fraction built from integers (Fraction(int, shots), products and sums of such); budgets and counts are int(Fraction * shots)")
     ctx.rule("C03b", "steps reachable with shots=None never use shots numerically without a dominating None test")
+    ctx.rule("C03c", "in every `shots is None` arm the weights handed on are the probabilities themselves (times the parent branch's weight): no rescaling, no renormalisation")
     ex = Exactness(idx, res)
     roots = _roots(reg, res)
     ctx.require_floor("simulation steps analysed", len(roots), 60)
@@ -172,4 +173,94 @@ def run(ctx: Context) -> None:
     ap = sim.methods["_apply_instruction_to_branches"]
     # ---- (b) ----------------------------------------------------------------------------------------------
     shotsmod.check_shots_none(ctx, idx, reg, "C03b")
+    clause_c(ctx, idx)
     ctx.assume("Branch.frequency of incoming branches is an exact Fraction when shots is given (the invariant this rule re-establishes at every construction site)")
+
+
+# ================================================================================================ (c)
+
+
+def _shots_none_polarity(test: ast.AST):
+    """True: the test holds exactly when shots is None; False: exactly when it is not None; None: something else."""
+    pol = True
+    t = test
+    while isinstance(t, ast.UnaryOp) and isinstance(t.op, ast.Not):
+        pol = not pol
+        t = t.operand
+    if (isinstance(t, ast.Compare) and len(t.ops) == 1 and isinstance(t.left, ast.Name) and t.left.id == "shots"
+            and isinstance(t.comparators[0], ast.Constant) and t.comparators[0].value is None):
+        if isinstance(t.ops[0], (ast.Is, ast.Eq)):
+            return pol
+        if isinstance(t.ops[0], (ast.IsNot, ast.NotEq)):
+            return not pol
+    return None
+
+
+def _none_arms(fn_node: ast.AST):
+    """Statement lists that run only when shots is None."""
+    for node in ast.walk(fn_node):
+        body = getattr(node, "body", None)
+        if not isinstance(body, list):
+            continue
+        for i, st in enumerate(body):
+            if not isinstance(st, ast.If):
+                continue
+            pol = _shots_none_polarity(st.test)
+            if pol is True:
+                yield st.body
+            elif pol is False:
+                if st.orelse:
+                    yield st.orelse
+                elif st.body and isinstance(st.body[-1], (ast.Return, ast.Raise)):
+                    yield body[i + 1:]
+
+
+def clause_c(ctx: Context, idx) -> None:
+    """With shots=None the branch weights are the exact outcome probabilities, so that they sum to the norm of the
+    measured state and multiply along the chain of measurements.  In each `if shots is None:` arm, every weight that
+    is produced from an iteration `for outcome, p in MAP.items()` must be `p` itself or `p` times the parent branch's
+    `.frequency`; anything else (p / total, p * c, round(p)) rescales the distribution."""
+    n_arms = 0
+    n_weights = 0
+    for fn in idx.all_functions():
+        if not fn.module.name.startswith("piquasso.") or "shots" not in fn.all_params():
+            continue
+        for arm in _none_arms(fn.node):
+            comps = []
+            for s in arm:
+                for n in ast.walk(s):
+                    if isinstance(n, (ast.DictComp, ast.ListComp)) and len(n.generators) == 1:
+                        g = n.generators[0]
+                        if isinstance(g.iter, ast.Call) and isinstance(g.iter.func, ast.Attribute) and g.iter.func.attr == "items" \
+                                and isinstance(g.target, ast.Tuple) and len(g.target.elts) == 2 and isinstance(g.target.elts[1], ast.Name):
+                            comps.append((n, g.target.elts[1].id))
+            if not comps:
+                continue
+            n_arms += 1
+            for comp, pv in comps:
+                weights: List[ast.AST] = []
+                if isinstance(comp, ast.DictComp):
+                    weights.append(comp.value)
+                else:
+                    elt = comp.elt
+                    if isinstance(elt, ast.Call):
+                        weights.extend(k.value for k in elt.keywords if k.arg == "frequency")
+                for w in weights:
+                    n_weights += 1
+                    ok = False
+                    if isinstance(w, ast.Name) and w.id == pv:
+                        ok = True
+                    elif isinstance(w, ast.BinOp) and isinstance(w.op, ast.Mult):
+                        a, b = w.left, w.right
+                        for x, y in ((a, b), (b, a)):
+                            if isinstance(x, ast.Name) and x.id == pv and isinstance(y, ast.Attribute) and y.attr == "frequency":
+                                ok = True
+                    key = f"{fn.qualname}|shots-none-weight|{norm(w)[:50]}"
+                    ctx.obligation("C03c", key, ok, f"{ctx.relpath(fn.file)}:{w.lineno}")
+                    if not ok:
+                        ctx.violation("C03c", key, fn.file, w.lineno,
+                                      f"with shots=None {fn.name} hands on the weight `{norm(w)[:60]}` instead of the probability `{pv}` (times the "
+                                      f"parent branch's weight): the branch weights no longer sum to the norm of the measured state and the "
+                                      f"joint distribution of successive measurements is not the product of the conditionals", norm(w)[:90])
+    ctx.require_floor("`shots is None` arms that build weights from a probability map", n_arms, 3)
+    ctx.require_floor("weights built in `shots is None` arms", n_weights, 4)
